@@ -925,6 +925,7 @@ func (fr *frame) slice(x *ssa.Slice, st *State) {
 		content := fr.load(lv, st)
 		r := vc.freshConst(fr.prefix+"."+x.Name(), SV)
 		vc.fact(eq(r.S, fmt.Sprintf("(sl_of_arr %s %s %s)", content.S, lo.S, hi.S)))
+		vc.fact(eq(fmt.Sprintf("(sl_cap %s)", r.S), fmt.Sprintf("(- %d %s)", arr.Len(), lo.S)))
 		if isByte(arr.Elem()) {
 			base := fr.alloc(x.Type(), st)
 			vc.fact(eq(fmt.Sprintf("(sl_base %s)", r.S), base.S))
